@@ -55,8 +55,11 @@ func c08O3(r *core.R) {
 			return nil
 		}
 		f := fieldOf(info, sel)
-		if f == nil || namedPath(selRecv(info, sel)) != namedPath(m.scannerT) {
+		if f == nil {
 			return nil
+		}
+		if namedPath(selRecv(info, sel)) != namedPath(m.scannerT) {
+			return c08KnobAliases(m)[f] // a private copy of the knob (O9 decides whether it was taken)
 		}
 		return f
 	}
@@ -288,7 +291,8 @@ func c08FilterWiring(r *core.R, cm *c01Model, fl *c08Flow, gs *FuncInfo, gv *c01
 				return nil
 			}
 			fld := selField(info, sel) // also for selectors synthesised by predicate inlining
-			if fld == nil || !c08IsScannerField(m, fld) {
+			fld = c08KnobOf(m, fld)
+			if fld == nil {
 				return nil
 			}
 			if _, isFunc := fld.Type().Underlying().(*types.Signature); !isFunc {
